@@ -18,6 +18,7 @@ import (
 	"path/filepath"
 	"sort"
 	"strings"
+	"time"
 
 	"verif/harness/hx"
 	"verif/harness/internal/plyx"
@@ -45,6 +46,12 @@ type fileDesc struct {
 	// pts only: the abstract token view
 	PtsCount int     `json:"pts_count,omitempty"`
 	PtsLines [][]int `json:"pts_lines,omitempty"`
+	// an auxiliary reader of the anchored files run on the same file: "plyc" (ply.MeshReader with a caller-made
+	// configuration, Read and Load) or "spzh" (spz.ReadHeader); judged as a framed decoder, no model
+	Aux string `json:"aux,omitempty"`
+	// big files (sizes past the readers' internal chunk / buffer thresholds) are described by their recipe, not by
+	// their bytes; cuts are sampled around block boundaries
+	Gen *bigGen `json:"gen,omitempty"`
 	// filled in when a case fails: the first offending cut
 	BadCut *int   `json:"bad_cut,omitempty"`
 	BadWhy string `json:"bad_why,omitempty"`
@@ -220,7 +227,11 @@ func genRefPly(r *hx.Rng, big bool) (fileDesc, bool) {
 			case "int":
 				put(p.ty, int64(r.Range(-300, 300)*2+1), 0)
 			default:
-				put(p.ty, 0, float64(2*r.Range(-20, 20)+1)/8)
+				if r.Chance(1, 5) { // a bare integer token (0, 1, -2 ...): nothing marks it as a coordinate
+					put(p.ty, 0, float64(r.Range(-2, 3)))
+				} else {
+					put(p.ty, 0, float64(2*r.Range(-20, 20)+1)/8)
+				}
 			}
 		}
 		flush()
@@ -246,6 +257,8 @@ const nKinds = 8
 
 var spzSeq = 0
 var refSeq = 0
+var ptsSeq = 0
+var plySeq = 0
 
 func genFile(r *hx.Rng, which int, big bool) (fileDesc, bool) {
 	var buf bytes.Buffer
@@ -283,6 +296,16 @@ func genFile(r *hx.Rng, which int, big bool) (fileDesc, bool) {
 		lines := make([][]int, n)
 		var sb strings.Builder
 		fmt.Fprintf(&sb, "%d\n", n)
+		// tokens that look like something else when they stand alone at the end of a cut file: a bare 0, 1, the
+		// number of points still owed, the point count itself.  One line of every file is guaranteed to start with
+		// one (the kind rotates over the files), the others get one with chance 1/4; most values stay non-zero so
+		// that a zero placeholder is distinguishable.
+		special := func(i int) int { return []int{0, n - i - 1, 0, 1, n, 0, n - i}[(ptsSeq+i)%7] }
+		forced := -1
+		if n > 0 {
+			forced = []int{n - 1, 0, n / 2}[ptsSeq%3]
+		}
+		ptsSeq++
 		for i := range lines {
 			lines[i] = make([]int, cols)
 			for j := range lines[i] {
@@ -290,6 +313,11 @@ func genFile(r *hx.Rng, which int, big bool) (fileDesc, bool) {
 					lines[i][j] = r.Range(-50, 50)
 					if lines[i][j] == 0 {
 						lines[i][j] = 51
+					}
+					if j == 0 && (i == forced || r.Chance(1, 4)) {
+						lines[i][j] = special(i)
+					} else if j > 0 && r.Chance(1, 10) {
+						lines[i][j] = 0
 					}
 				} else {
 					lines[i][j] = r.Range(1, 255) // non-zero so a zero placeholder is distinguishable
@@ -507,15 +535,40 @@ var pl = newPool(parallel)
 func fileCase(d fileDesc, thorough bool) hx.Case {
 	data, _ := hex.DecodeString(d.Hex)
 	c := hx.Case{Kind: "file"}
-	full := pl.decode(d.Format, data)
+	var bf bigFile
+	kinds, dec := kindAll, d.Format
+	if d.Gen != nil {
+		bf = genBig(*d.Gen)
+		data, kinds = bf.data, kindBig
+		c.Kind = "big"
+	}
+	if d.Aux != "" {
+		dec = d.Aux
+		c.Kind = "aux"
+	}
+	full := pl.decodeWith(dec, data, kinds)
 	if full.Cls != clsOk {
-		c.GoFail = fmt.Sprintf("the complete %s file does not decode (%s): generator problem or decoder defect", d.Format, full.Msg)
+		c.GoFail = fmt.Sprintf("the complete %s file does not decode (%s): generator problem or decoder defect", dec, full.Msg)
 		c.FailKey = "c14:full-file-rejected"
 	}
-	cuts := cutsFor(d, data, thorough)
+	var cuts []int
+	switch {
+	case d.Cuts != nil:
+		cuts = d.Cuts
+	case d.Gen != nil:
+		bs := 0
+		if d.Format == "ply" {
+			bs = plyBodyStart(data)
+		} else if d.Format == "pts" {
+			bs = bytes.IndexByte(data, '\n') + 1
+		}
+		cuts = bigCuts(*d.Gen, bf, bs, thorough)
+	default:
+		cuts = cutsFor(d, data, thorough)
+	}
 	var res []outcome
 	if pl.hangs < hangLimit {
-		res = pl.decodeAllLimited(d.Format, data, cuts)
+		res = pl.decodeAllLimited(dec, data, cuts, kinds)
 	}
 	obs := make([]string, 0, len(cuts))
 	bad := func(k int, why string) {
@@ -548,16 +601,30 @@ func fileCase(d fileDesc, thorough bool) hx.Case {
 				}
 			}
 		}
+	case "pts": // big files only (framed judgement): the end of the last token
+		need = len(data)
+		for need > 0 && isWs(data[need-1]) {
+			need--
+		}
 	case "spz":
 		plain = inflateAll(data)
-		need = len(data)
-		for k := 0; k < len(data); k++ {
-			if inflatedLen(data[:k]) >= len(plain) {
-				need = k
-				break
+		want := len(plain)
+		if d.Aux == "spzh" {
+			want = 16 // the header reader needs the first 16 plaintext bytes only
+		}
+		// first compressed cut whose inflated prefix holds the [want] bytes; inflatedLen is monotone in the cut
+		lo, hi := 0, len(data)
+		for lo < hi {
+			mid := (lo + hi) / 2
+			if inflatedLen(data[:mid]) >= want {
+				hi = mid
+			} else {
+				lo = mid + 1
 			}
 		}
+		need = lo
 	}
+	framed := d.Gen != nil || d.Aux != "" // judged as a framed decoder without a model: CFramed / CSplatBig
 	for i, k := range cuts {
 		if i >= len(res) || res[i].Cls < 0 {
 			continue // not explored (hang limit reached)
@@ -565,6 +632,14 @@ func fileCase(d fileDesc, thorough bool) hx.Case {
 		o := res[i]
 		if o.Cls == clsCrash || o.Cls == clsHang || o.Cls == clsDep {
 			bad(k, fmt.Sprintf("class %d: %s", o.Cls, o.Msg))
+		}
+		if framed && d.Format != "splat" {
+			eq := o.Cls == clsOk && o.Digest == full.Digest
+			if o.Cls == clsOk && (k < need || !eq) {
+				bad(k, fmt.Sprintf("%s accepted a prefix of %d bytes (%d needed), same result as for the complete file: %v", dec, k, need, eq))
+			}
+			obs = append(obs, fmt.Sprintf("(%d,%d,%s)", k, o.Cls, hx.CoqBool(eq)))
+			continue
 		}
 		switch d.Format {
 		case "splat":
@@ -615,6 +690,23 @@ func fileCase(d fileDesc, thorough bool) hx.Case {
 			}
 		}
 	}
+	if framed {
+		what := dec + "/" + d.Sub
+		if d.Gen != nil {
+			what = fmt.Sprintf("%s/%s n=%d", d.Format, d.Gen.Sub, d.Gen.N)
+			c.Key = fmt.Sprintf("big|%s|%s|%d|%d", d.Format, d.Gen.Sub, d.Gen.N, d.Gen.Seed)
+		} else {
+			c.Key = d.Aux + d.Sub + d.Hex
+		}
+		if d.Format == "splat" {
+			c.Coq = fmt.Sprintf("CSplatBig %d [%s]", len(data), strings.Join(obs, ";"))
+		} else {
+			c.Coq = fmt.Sprintf("CFramed %s %d %d [%s]", hx.CoqString(what), len(data), need, strings.Join(obs, ";"))
+		}
+		c.Desc = d
+		c.Nontriv = len(obs) > 20
+		return c
+	}
 	switch d.Format {
 	case "stl":
 		c.Coq = fmt.Sprintf("CStl %s [%s]", hx.CoqListN(data), strings.Join(obs, ";"))
@@ -649,7 +741,7 @@ func fileCase(d fileDesc, thorough bool) hx.Case {
 }
 
 // decodeAllLimited: decodeAll that stops exploring once the hang limit is reached (unexplored cuts get class -1)
-func (p *pool) decodeAllLimited(format string, data []byte, cuts []int) []outcome {
+func (p *pool) decodeAllLimited(format string, data []byte, cuts []int, kinds int) []outcome {
 	out := make([]outcome, len(cuts))
 	for i := range out {
 		out[i].Cls = -1
@@ -666,7 +758,7 @@ func (p *pool) decodeAllLimited(format string, data []byte, cuts []int) []outcom
 		if e > len(cuts) {
 			e = len(cuts)
 		}
-		copy(out[s:e], p.decodeAll(format, data, cuts[s:e], parallel))
+		copy(out[s:e], p.decodeAll(format, data, cuts[s:e], parallel, kinds))
 	}
 	return out
 }
@@ -712,9 +804,9 @@ func hostileCase(h hostileDesc) (hx.Case, outcome) {
 	if peak < 0 {
 		peak = 0
 	}
-	ms := o.Micros / 1000
+	ms := o.CpuUs / 1000 // CPU time of the decoding process: does not depend on the load of the machine
 	if o.Cls == clsHang {
-		ms = deadlineFor(len(data)).Milliseconds() + 1
+		ms = deadlineFor(len(data)).Milliseconds() + 1001
 	}
 	c := hx.Case{Kind: "hostile", Desc: h, Key: "hostile" + h.Hex, Nontriv: true,
 		Coq: fmt.Sprintf("CHostile %s %d %d %d %d %d", hx.CoqString(h.Format), len(data), h.Declared, o.Cls, ms, peak)}
@@ -782,14 +874,52 @@ func main() {
 		run.Count("format:" + d.Format + "/" + d.Sub)
 		total += strings.Count(c.Coq, ";(") + 1
 		run.Add(c)
+		// the other readers of the anchored files, on the same file and cuts: ply.MeshReader with a caller-made
+		// configuration (every second PLY file), spz.ReadHeader (every SPZ file)
+		aux := ""
+		if d.Format == "ply" {
+			if plySeq++; plySeq%2 == 0 {
+				aux = "plyc"
+			}
+		} else if d.Format == "spz" {
+			aux = "spzh"
+		}
+		if aux != "" && pl.hangs < hangLimit {
+			d.Aux = aux
+			c := fileCase(d, thorough)
+			run.Count("aux:" + aux + "/" + d.Sub)
+			total += strings.Count(c.Coq, ";(") + 1
+			run.Add(c)
+		}
 	}
+	// big files: sizes past the readers' internal thresholds, cuts sampled around block boundaries
+	bigFiles := []string{}
+	var bigWall time.Duration
+	if os.Getenv("C14_NO_BIG") == "" {
+		for _, g := range bigPlan(run.Seed, thorough) {
+			if pl.hangs >= hangLimit {
+				break
+			}
+			g := g
+			t0 := time.Now()
+			c := fileCase(fileDesc{Format: g.Format, Sub: g.Sub, Gen: &g}, thorough)
+			bigWall += time.Since(t0)
+			nc := strings.Count(c.Coq, ";(") + 1
+			run.Count("big:" + g.Format + "/" + g.Sub)
+			bigFiles = append(bigFiles, fmt.Sprintf("%s/%s n=%d: %d cuts, %d ms", g.Format, g.Sub, g.N, nc, time.Since(t0).Milliseconds()))
+			total += nc
+			run.Add(c)
+		}
+	}
+	run.Extra["big_files"] = bigFiles
+	run.Extra["big_files_wall_ms"] = bigWall.Milliseconds()
 	// hostile counts
 	judged := hostileJudged()
 	hostile := []map[string]interface{}{}
 	for _, h := range hostileStreams() {
 		c, o := hostileCase(h)
 		hostile = append(hostile, map[string]interface{}{"format": h.Format, "what": h.What, "bytes": len(h.Hex) / 2,
-			"declared": h.Declared, "class": o.Cls, "ms": o.Micros / 1000, "peak_mb": o.PeakMB, "msg": o.Msg,
+			"declared": h.Declared, "class": o.Cls, "ms": o.Micros / 1000, "cpu_ms": o.CpuUs / 1000, "peak_mb": o.PeakMB, "msg": o.Msg,
 			"within_input_proportional_budget": c.FailKey == ""})
 		if judged || c.FailKey == "" {
 			run.Add(c)
@@ -802,7 +932,8 @@ func main() {
 	run.Extra["hangs"] = pl.hangs
 	run.Extra["decoder_process_deaths"] = pl.died
 	run.Extra["reader_kinds"] = readerKinds
-	run.Extra["deadline"] = "2 s + 1 us/byte per decode, child process, RLIMIT_AS 3 GiB"
+	run.Extra["starved_decodes_retried_alone"] = pl.starved
+	run.Extra["deadline"] = "CPU time of the decoding process: 1 s + 1 us per byte and reader kind; wall clock only as an inactivity limit (30 s + 10 us/byte, then one retry alone with twice that); child process, RLIMIT_AS 3 GiB"
 	pl.close()
 	run.Finish()
 }
